@@ -258,5 +258,58 @@ pub fn run(cases_path: &str, out_path: &str, tier: &str, seed: u64) {
             }
         }
     });
+    // ---- every key algorithm x every hash algorithm: whatever the library agrees to sign must verify through every interface
+    {
+        use pgp::composed::{CleartextSignedMessage, DetachedSignature, Message, MessageBuilder};
+        use std::io::Read;
+        let all_hashes = [HashAlgorithm::Sha1, HashAlgorithm::Sha224, HashAlgorithm::Sha256, HashAlgorithm::Sha384, HashAlgorithm::Sha512, HashAlgorithm::Sha3_256, HashAlgorithm::Sha3_512, HashAlgorithm::Ripemd160, HashAlgorithm::Md5];
+        let mut ks: Vec<(&str, pgp::composed::SignedSecretKey)> = Vec::new();
+        for (i, (n, v6, a)) in [("ed25519legacy-v4", false, Alg::Ed25519Legacy), ("ed25519-v6", true, Alg::Ed25519), ("ed448-v6", true, Alg::Ed448), ("ecdsa-p256-v4", false, Alg::EcdsaP256), ("ecdsa-p384-v4", false, Alg::EcdsaP384),
+                                    ("ecdsa-p521-v6", true, Alg::EcdsaP521), ("ecdsa-k256-v4", false, Alg::EcdsaK256), ("rsa2048-v4", false, Alg::Rsa2048), ("rsa2048-v6", true, Alg::Rsa2048)].into_iter().enumerate() {
+            if let Out::Ok(k) = guard(|| gen_key(seed ^ (0x6A0 + i as u64), v6, &a, None, n)) { ks.push((n, k)); }
+        }
+        if thorough { if let Out::Ok(k) = guard(|| gen_key(seed ^ 0x6AF, false, &Alg::Dsa2048, None, "dsa2048-v4")) { ks.push(("dsa2048-v4", k)); } }
+        let text = "alg matrix\nsecond line \r\nthird\n";
+        for (kn, k) in &ks {
+            for h in all_hashes {
+                nontrivial.fetch_add(1, std::sync::atomic::Ordering::Relaxed);
+                let r = guard(|| -> Result<String, String> {
+                    let pw = pgp::types::Password::empty();
+                    let pubk = k.to_public_key();
+                    let mut done = Vec::new();
+                    // detached binary + text
+                    match DetachedSignature::sign_binary_data(rng(seed), &k.primary_key, &pw, h, text.as_bytes()) {
+                        Ok(ds) => { ds.verify(&pubk, text.as_bytes()).map_err(|e| format!("detached binary signature made with {h:?} does not verify: {e}"))?; done.push("detached"); }
+                        Err(_) => return Ok("library refuses to sign with this hash".into()),
+                    }
+                    let ds = DetachedSignature::sign_text_data(rng(seed), &k.primary_key, &pw, h, text.as_bytes()).map_err(|e| format!("binary signs but text does not: {e}"))?;
+                    ds.verify(&pubk, text.as_bytes()).map_err(|e| format!("detached text signature made with {h:?} does not verify: {e}"))?;
+                    // one-pass signed message
+                    let mut b = MessageBuilder::from_bytes("", text.as_bytes().to_vec());
+                    b.sign(&k.primary_key, pgp::types::Password::empty(), h);
+                    let bytes = b.to_vec(rng(seed)).map_err(|e| format!("builder: {e}"))?;
+                    let mut m = Message::from_bytes(&bytes[..]).map_err(|e| e.to_string())?;
+                    let mut o = Vec::new();
+                    m.read_to_end(&mut o).map_err(|e| e.to_string())?;
+                    m.verify(&pubk.primary_key).map_err(|e| format!("one-pass signature made with {h:?} does not verify: {e}"))?;
+                    done.push("one-pass");
+                    // cleartext with the key's own default hash is covered by the interface matrix; here: explicit hash through new_many
+                    let csf = CleartextSignedMessage::new_many(text, |t| {
+                        let cfg = if k.primary_key.version() == pgp::types::KeyVersion::V6 { pgp::packet::SignatureConfig::v6(rng(seed), pgp::packet::SignatureType::Text, k.primary_key.algorithm(), h)? } else { pgp::packet::SignatureConfig::v4(pgp::packet::SignatureType::Text, k.primary_key.algorithm(), h) };
+                        let mut cfg = cfg;
+                        cfg.hashed_subpackets = vec![pgp::packet::Subpacket::regular(pgp::packet::SubpacketData::SignatureCreationTime(pgp::types::Timestamp::now()))?, pgp::packet::Subpacket::regular(pgp::packet::SubpacketData::IssuerFingerprint(k.primary_key.fingerprint()))?];
+                        Ok(vec![cfg.sign(&k.primary_key, &pw, t.as_bytes())?])
+                    }).map_err(|e| format!("cleartext: {e}"))?;
+                    csf.verify(&pubk.primary_key).map_err(|e| format!("cleartext signature made with {h:?} does not verify: {e}"))?;
+                    let arm = csf.to_armored_string(Default::default()).map_err(|e| e.to_string())?;
+                    let (back, _) = CleartextSignedMessage::from_string(&arm).map_err(|e| format!("cleartext signature made with {h:?} does not parse back: {e}"))?;
+                    back.verify(&pubk.primary_key).map_err(|e| format!("cleartext signature made with {h:?} does not verify after armoring: {e}"))?;
+                    done.push("cleartext");
+                    Ok(done.join("+"))
+                });
+                sink.put(rec("c06.alg_hash_matrix", json!({"key": kn, "hash": format!("{h:?}")}), r.is_ok(), "alg_hash", json!({"outcome": r.class(), "detail": match &r { Out::Ok(s) => s.clone(), o => o.detail() }})));
+            }
+        }
+    }
     sink.finish(json!({"texts": texts.len(), "pairs": pairs.len(), "nontrivial": nontrivial.load(std::sync::atomic::Ordering::Relaxed)}));
 }
